@@ -141,6 +141,8 @@ pub fn hostile_process(data: &[u8]) -> Result<(), Failure> {
         let fd = FdCfg { dead_grace_ms: 60_000, ..FdCfg::default() };
         let mut victim = build_node(&id, "c", Duration::from_secs(10), &fd, false, 0).chitchat;
         victim.self_node_state().set("ka", "own");
+        // the victim's application listens to a few prefixes (dispatch runs inside process_message)
+        let _handles: Vec<chitchat::ListenerHandle> = ["k", "ke", "ka", "é", ""].iter().map(|p| victim.subscribe_event(*p, |_| {})).collect();
         let (sel, datagrams) = split_datagrams(data);
         let copies = [
             CopySpec { gc: 0, max: 3, entries: vec![EntryS { key: 0, version: 2, status: 0 }, EntryS { key: 1, version: 3, status: 1 }] },
